@@ -5,12 +5,15 @@ import numpy as np
 
 RULE = ("cases = every point of the integer grid (radii, heights 1..G; distances 0..2G+1; cap heights 0..2r) for sphere, cap, frustum, two-sphere "
         "intersection and union, sphere-frustum intersection and union (every branch of the case analysis and every boundary between branches, "
-        "tangent and nested configurations); each evaluated by the real library at one of 7 placements (axis directions incl. oblique and generic, "
+        "tangent and nested configurations); each evaluated by the real library at one of 7 placements (again at atlas-sized coordinates of 10^4-10^5; half of the sphere-frustum cases on a "
+        "frustum object that was asked about other spheres before) (axis directions incl. oblique and generic, "
         "frustum given from either end, offsets) and one of 3 length units (volumes scale by unit^3); non-trivial = a two-object case; "
         "distinct by (kind, parameters)")
 UNITS = [1.0, 0.5, 0.37]
 DIRS = [(1, 0, 0), (0, 0, -1), (2 / 3, 2 / 3, 1 / 3), (0.6, 0.8, 0), (0.3, -0.5, 0.81), (0, 1, 0), (-2 / 7, 3 / 7, 6 / 7)]
 ORGS = [(0, 0, 0), (5, -3, 2), (0, 0, 0), (-11, 4, 0.5), (100, 200, -300), (1, 1, 1), (0, 0, 0)]
+# far placements (atlas-sized coordinates): the volume of a solid does not depend on where it sits
+FAR = [(43210.7, -98765.4, 12345.6), (-250000.25, 0.5, 80000.125)]
 
 
 def execute(c):
@@ -18,6 +21,8 @@ def execute(c):
     u = UNITS[c["unit"]]
     d = np.array(DIRS[c["place"]], dtype=np.float64); d /= np.linalg.norm(d)
     o = np.array(ORGS[c["place"]], dtype=np.float64)
+    if "far" in c:
+        o = o + np.array(FAR[c["far"]], dtype=np.float64)
     rev = c["place"] >= 5
     k, a, b, cc = c["k"], c["a"] * u, c["b"] * u, c["c"] * u
     if k == "sphere":
@@ -33,8 +38,13 @@ def execute(c):
         else:
             v = (s1.intersect(s2) if k == "lens" else s1.union(s2)).get_volume()
     else:
-        s = VolSphere(o, a)
         f = VolFrustumCone(o + d * cc, b, o, a) if rev else VolFrustumCone(o, a, o + d * cc, b)
+        if lib.vid(c) % 2:
+            # a history: the same frustum object was first asked about short-lived spheres on its other end and on this end
+            VolSphere(o + d * cc, b).intersect(f).get_volume()
+            VolSphere(o + d * cc, b).union(f).get_volume()
+            VolSphere(o, a).intersect(f).get_volume()
+        s = VolSphere(o, a)
         if k == "sphfru":
             v = s.intersect(f).get_volume()
         else:
@@ -56,6 +66,9 @@ def nontrivial(c):
 def run(ctx):
     cases, path = ctx.gen("Gen_VolPrim", "Gen_VolPrim.%s.cfg" % ctx.tier)       # ASSUME: Code = Truth on the whole grid, every region reached
     ctx.run_cases("grid", cases, path, execute, "Judge_VolPrim", keyfn, nontrivial)
+    far = [dict(c, far=k % 2) for k, c in enumerate(cases) if c["k"] not in ("sphere", "cap")][:: (2 if ctx.tier == "quick" else 1)]
+    p = ctx.write_cases("far-from-origin", far)
+    ctx.run_cases("far-from-origin", far, p, execute, "Judge_VolPrim", keyfn, nontrivial)
     ctx.notes["spec_level"] = "ASSUME in Gen_VolPrim (TLC, exact rationals): the code's formulas and five-way case analysis equal the defining integrals on the whole grid; every region and the region boundaries are on the grid"
     ctx.assumptions += ["volumes are compared as the ratio observed / (pi * unit^3 * exact rational) with relative tolerance 5e-8 (5e-6 where the library's random "
                         "unit vector enters); the ratio is formed by the executor from the expected value TLC generated, and TLC checks that this value is the integral",
